@@ -24,9 +24,23 @@ def gen_tree(rnd, depth, lists_only=False):
             [gen_tree(rnd, depth - 1) for _ in range(rnd.choice([0, 1, 2, 3, 4, 5, 7, 11]))]]
 
 
-def gen_ops(rnd, lo=1, hi=4):
+def container_paths(spec, prefix=()):
+    """paths (child indices) to every container nested strictly inside the tree"""
+    out = []
+    kids = spec[2] if spec[0] == "window" else spec[6] if spec[0] == "list" else [spec[1]] if spec[0] == "center" else []
+    for i, k in enumerate(kids):
+        if k[0] in ("window", "list"): out.append(list(prefix) + [i])
+        out += container_paths(k, tuple(prefix) + (i,))
+    return out
+
+
+def gen_ops(rnd, lo=1, hi=4, tree=None):
     ops = []
     for _ in range(rnd.randint(lo, hi)):
-        if rnd.random() < 0.3: ops.append(["add", gen_tree(rnd, 1)])
-        ops.append(["render", rnd.choice(WIDTHS)])
+        r = rnd.random()
+        if r < 0.3: ops.append(["add", gen_tree(rnd, 1)])
+        elif r < 0.55 and tree is not None:
+            paths = container_paths(tree)
+            if paths: ops.append(["add_at", rnd.choice(paths), gen_tree(rnd, 1)])
+        ops.append(["render", rnd.choice(WIDTHS) if rnd.random() < 0.6 or not ops else next(o[1] for o in reversed(ops) if o[0] == "render") if any(o[0] == "render" for o in ops) else rnd.choice(WIDTHS)])
     return ops
